@@ -439,3 +439,65 @@ Fixpoint run1 (st : state) (h : list event) : state * list obs :=
   | [] => (st, [])
   | e :: r => let '(st1, o1) := step1 st e in let '(st2, o2) := run1 st1 r in (st2, o1 ++ o2)
   end.
+
+(* ---- a blocking wait during which the peer keeps writing ----------------
+   dbus_pending_call_block (call i) run by one thread while the peer delivers
+   the [batches] one after the other, each only when the waiting thread has
+   nothing left to read and goes to sleep in poll().  Expressed entirely with
+   the fine-grained events above (so every theorem about [run] covers it):
+   EStatus/EIter = _dbus_connection_flush_unlocked, EBlockCheck = the first
+   check_for_reply, then per round EIter = one blocking do_iteration and
+   EBlockStep = one pass of recheck_status. *)
+Inductive pmsg := PM (k : pkind) (target : nat + N) (tag : N).   (* inl i: reply serial of call i; inr s: literal *)
+Definition peer_events (b : list pmsg) : list event :=
+  map (fun p => match p with
+                | PM k (inl i) tag => EPeerReply k i tag
+                | PM k (inr rs) tag => EPeer k rs tag
+                end) b.
+
+Definition would_wait (st : state) : bool :=
+  connected st && match wire st with [] => true | _ => false end && negb (peer_closed st).
+
+Definition open_call (st : state) (i : nat) : bool :=
+  match nth_error (calls st) i with
+  | Some c => negb (c_completed c) && (fault st =? 0)
+  | None => false
+  end.
+
+(* returns the batches the peer had not yet written when the wait ended *)
+Fixpoint block_loop (fuel : nat) (st : state) (i : nat) (finite : bool) (batches : list (list pmsg)) (t : bool)
+  : state * list obs * list (list pmsg) :=
+  match fuel with
+  | O => (st, [OFuel], batches)
+  | S f =>
+    if would_wait st then
+      match batches with
+      | b :: rest =>
+        let '(st1, o1) := run st (peer_events b ++ [EIter; EBlockStep i t]) in
+        if open_call st1 i then let '(st2, o2, r) := block_loop f st1 i finite rest t in (st2, o1 ++ o2, r) else (st1, o1, rest)
+      | [] =>
+        if finite then
+          let '(st1, o1) := step st (EBlockStep i true) in
+          if open_call st1 i then let '(st2, o2, r) := block_loop f st1 i finite [] true in (st2, o1 ++ o2, r) else (st1, o1, [])
+        else (st, [OHang], [])
+      end
+    else
+      let '(st1, o1) := run st [EIter; EBlockStep i t] in
+      if open_call st1 i then let '(st2, o2, r) := block_loop f st1 i finite batches t in (st2, o1 ++ o2, r) else (st1, o1, batches)
+  end.
+
+Definition block_with (st : state) (i : nat) (batches : list (list pmsg)) : state * list obs :=
+  let '(s1, o1, rest) :=
+    match nth_error (calls st) i with
+    | None => (st, [], batches)
+    | Some c =>
+      if c_completed c then (st, [], batches)
+      else
+        let '(s0, o0) := run st ((if outgoing st && connected st then [EIter] else []) ++ [EStatus; EBlockCheck i]) in
+        if open_call s0 i then let '(s, o, r) := block_loop (2 * length batches + 4) s0 i (c_finite c) batches false in (s, o0 ++ o, r)
+        else (s0, o0, batches)
+    end in
+  (* the peer writes whatever is left (nobody reads it yet); then the waiting thread runs its notify function *)
+  let '(s2, o2) := run s1 (peer_events (concat rest)) in
+  let '(s3, o3) := run s2 (inflight_from (calls s2) 0) in
+  (s3, o1 ++ o2 ++ o3).
